@@ -147,6 +147,20 @@ def check_model(case):
         if not same_array(np.asarray(b[nm]), np.asarray(m[nm])):
             res.fail('from_dataframe/values', f'{detail}: {nm} = {np.asarray(b[nm]).tolist()}, original {np.asarray(m[nm]).tolist()}')
             break
+    # the whole table (extra variables included) under strict=True: the import is either refused, or nothing is lost -
+    # never a model that silently lacks some of the columns
+    extra_cols = [c for c in df.columns if c not in M.NAMES]
+    if extra_cols:
+        from fsic.exceptions import InitialisationError
+        strict_back = attempt(M.from_dataframe, df, strict=True)
+        if strict_back.ok:
+            lost = [c for c in df.columns if c not in strict_back.value.index
+                    or not same_array(np.asarray(strict_back.value[c]), np.asarray(m[c]))]
+            if lost:
+                res.fail('from_dataframe/strict/columns-lost', f'{detail}: strict import of columns {list(df.columns)} returned a model '
+                         f'without the data of {lost}')
+        elif not isinstance(strict_back.exc, InitialisationError):
+            res.fail(f'from_dataframe/strict/raised-{strict_back.exc_name}', f'{detail}: {strict_back!r}')
     return res
 
 
